@@ -17,8 +17,9 @@ META_COMMON = {
 
 # scenarios: list of (name, deps as indices into the list, time_limit, late)
 SCEN = {
-    "chain": [("a", [], None, False), ("b", [0], None, False), ("c", [1], None, False)],
-    "fork": [("a", [], None, False), ("b", [0], None, False), ("c", [0], None, False)],
+    # (target names may contain dots: sibling names sharing a prefix must keep separate logs)
+    "chain": [("al.s1", [], None, False), ("al.s2", [0], None, False), ("c", [1], None, False)],
+    "fork": [("a", [], None, False), ("b.x", [0], None, False), ("b.y", [0], None, False)],
     "skip": [("a", [], None, False), ("b", [0], None, False), ("c", [], None, False), ("d", [], None, False)],
     "indep-tl": [("a", [], 5, False), ("b", [], None, False), ("c", [], 5, False)],
     "join": [("a", [], None, False), ("b", [], None, False), ("c", [0, 1], None, False)],
